@@ -5,6 +5,7 @@ use proptest::prelude::*;
 use serde::{Deserialize, Serialize};
 
 use crate::engine::*;
+use crate::model::Tt;
 use crate::sopx::*;
 use crate::{ensure, lib};
 
@@ -418,6 +419,123 @@ fn enumerate(t: Tier, shard: usize, nshards: usize, f: &mut dyn FnMut(Case) -> b
     }
 }
 
+// ---------------------------------------------------------------------------------------------
+// very long texts (hundreds of KiB): the minterm cover of a dense function of 14 or 15 variables
+
+#[derive(Clone, Debug, Hash, Serialize, Deserialize)]
+pub struct HugeCase {
+    pub f: Tt,
+    pub esop: bool,
+}
+
+fn strategy_huge(_t: Tier) -> BoxedStrategy<HugeCase> {
+    (prop_oneof![3 => Just(14usize), 1 => Just(15usize)], any::<bool>())
+        .prop_flat_map(|(n, esop)| {
+            // mostly dense functions (uniform words): about 2^(n-1) minterms / monomials
+            let dense = vec(any::<u64>(), crate::model::words_for(n)).prop_map(move |w| Tt::from_words(n, w));
+            prop_oneof![3 => dense.boxed(), 1 => crate::gen::arb_tt(n)].prop_map(move |f| HugeCase { f, esop })
+        })
+        .boxed()
+}
+
+fn run_huge(c: &HugeCase) -> Verdict {
+    let n = c.f.n;
+    let l = to_lut(&c.f);
+    // Sop: minterm cover; Esop: the Reed-Muller form (up to 2^n monomials)
+    let (text, vals): (String, Vec<bool>) = if c.esop {
+        let e = lib!("Esop::from(&Lut)", volute::sop::Esop::from(&l));
+        (lib!("Display", e.to_string()), (0..c.f.size()).step_by(97).map(|m| e.value(m)).collect())
+    } else {
+        let e = lib!("Sop::from(&Lut)", volute::sop::Sop::from(&l));
+        (lib!("Display", e.to_string()), (0..c.f.size()).step_by(97).map(|m| e.value(m)).collect())
+    };
+    let f = match parse(&text) {
+        Ok(f) => f,
+        Err(e) => return fail("huge:unparsable", format!("the {}-byte text of the {} of {} is not a formula: {}", text.len(), if c.esop { "Esop" } else { "Sop" }, c.f.short(), e)),
+    };
+    // evaluate the text on every assignment: products that are complete minterms are tabulated
+    // (Sop), monomials are expanded by their up-set parity (Esop); anything else is evaluated directly
+    let size = c.f.size();
+    let mut table = vec![false; size];
+    let mut rest: Vec<&Vec<Factor>> = Vec::new();
+    let mut monos: Vec<usize> = Vec::new();
+    if c.esop {
+        ensure!(f.0.len() == 1, "huge:shape", "the text of an Esop contains `|`");
+        for p in &f.0[0] {
+            let pos_only = p.iter().all(|x| matches!(x, Factor::Lit(_, true) | Factor::Const(true)));
+            if pos_only {
+                monos.push(p.iter().filter_map(|x| if let Factor::Lit(v, _) = x { Some(1usize << v) } else { None }).fold(0, |a, b| a | b));
+            } else {
+                rest.push(p);
+            }
+        }
+        // value at m = parity of the monomials contained in m: subset-sum (zeta) transform over GF(2)
+        for s in &monos {
+            if *s < size {
+                table[*s] ^= true;
+            } else {
+                return fail("huge:var-range", format!("the text mentions a variable >= {}", n));
+            }
+        }
+        for v in 0..n {
+            for m in 0..size {
+                if (m >> v) & 1 != 0 && table[m ^ (1 << v)] {
+                    table[m] ^= true;
+                }
+            }
+        }
+        for m in 0..size {
+            for p in &rest {
+                let t = p.iter().all(|x| match x {
+                    Factor::Const(b) => *b,
+                    Factor::Lit(v, pos) => ((m >> v) & 1 != 0) == *pos,
+                });
+                table[m] ^= t;
+            }
+        }
+    } else {
+        for x in &f.0 {
+            ensure!(x.len() == 1, "huge:shape", "the text of a Sop contains `^`");
+            let p = &x[0];
+            let lits: Vec<(usize, bool)> = p.iter().filter_map(|x| if let Factor::Lit(v, pos) = x { Some((*v, *pos)) } else { None }).collect();
+            let mut seen = 0usize;
+            let mut idx = 0usize;
+            let mut ok = lits.len() == n && p.len() == n;
+            for (v, pos) in &lits {
+                if *v >= n || (seen >> v) & 1 != 0 {
+                    ok = false;
+                    break;
+                }
+                seen |= 1 << v;
+                if *pos {
+                    idx |= 1 << v;
+                }
+            }
+            if ok {
+                table[idx] = true;
+            } else {
+                rest.push(p);
+            }
+        }
+        ensure!(rest.len() <= 64, "huge:shape", "the text of a minterm cover contains {} products that are not minterms of the {} variables", rest.len(), n);
+        for m in 0..size {
+            if !table[m] {
+                table[m] = rest.iter().any(|p| p.iter().all(|x| match x {
+                    Factor::Const(b) => *b,
+                    Factor::Lit(v, pos) => ((m >> v) & 1 != 0) == *pos,
+                }));
+            }
+        }
+    }
+    for m in 0..size {
+        ensure!(table[m] == c.f.get(m), "huge:meaning", "the {}-byte text of the {} of {} evaluates to {} on assignment {} but the function is {} there", text.len(), if c.esop { "Esop" } else { "Sop" }, c.f.short(), table[m], m, c.f.get(m));
+    }
+    for (k, m) in (0..size).step_by(97).enumerate() {
+        ensure!(vals[k] == c.f.get(m), "huge:value", "value({}) of the form built from {} is {}", m, c.f.short(), vals[k]);
+    }
+    pass(text.len() > 270_000, vec![format!("kind:{}", if c.esop { "esop" } else { "sop" }), format!("KiB:{}", std::cmp::min(text.len() / 102_400, 9) * 100)])
+}
+
 pub fn def() -> PropDef {
     PropDef {
         id: "C16",
@@ -431,6 +549,15 @@ pub fn def() -> PropDef {
             exhaustive: Some(enumerate),
             exhaustive_note: "all cubes/ecubes n<=4; all Sop/Esop/Soes with <=3 terms over n<=2 and <=2 (quick) / <=3 (thorough) terms over n=3",
             run,
+        }),
+        Box::new(Sub {
+            name: "hugetext",
+            rule: "texts of hundreds of KiB: Sop::from(&f) (minterm cover) and Esop::from(&f) (Reed-Muller form) of generated (mostly dense) functions f of 14..=15 variables are printed, the whole text parsed, and evaluated on EVERY assignment (complete minterms are tabulated, positive monomials expanded by a subset-parity transform, any other product evaluated directly) against f. Non-trivial = text longer than 270 000 bytes.",
+            strategy: strategy_huge,
+            cases: (16, 300),
+            exhaustive: None,
+            exhaustive_note: "",
+            run: run_huge,
         })],
     }
 }
